@@ -22,6 +22,11 @@ P_AU  == AlObj("UniformScale", Sc2(R(2),R(2)))
 P_O   == Obj("Opaque", FALSE, M3(R(1),R(1),R(0), R(0),R(2),R(1)))
 PoolFull == <<P_H, P_A, P_S, P_R, P_T, P_U, P_N, P_AA, P_AS, P_AR, P_AT, P_AU, P_O>>
 PoolSmall == <<P_H, P_A, P_R, P_T, P_U, P_N, P_AS, P_AR, P_O>>
+\* the alignment variants among themselves (two of the same class included), with the plain members they accept in place:
+\* depth-2 programs reach "an in-place composition, then a pure composition of two alignments of the same class"
+P_AT2 == AlObj("Translation", Tr2(R(3),R(1)))
+P_AU2 == AlObj("UniformScale", Sc2(Q(1,2),Q(1,2)))
+PoolAlign == <<P_AT, P_AT2, P_AU, P_AU2, P_AR, P_AS, P_AA, P_T, P_U>>
 PoolTiny == <<P_A, P_R, P_AS, P_N, P_O>>
 OnlyPinv == {"pinv"}
 AllOps == {"before","after","before_inplace","after_inplace","pinv"}
